@@ -249,6 +249,55 @@ func buildList(fail bool, policy int) *explore.Scenario {
 	}
 }
 
+// buildGet: the size a node reports for ONE dataset through its DatasetManager service while another request for the
+// same dataset is in flight. A response is serialised after the handler has returned: the caller reads the returned
+// message one scheduling point later.
+func buildGet(otherWithSize bool) *explore.Scenario {
+	return &explore.Scenario{
+		Name:      fmt.Sprintf("get-with-size-vs-concurrent-get-with-size-%v", otherWithSize),
+		Configure: func(s *vrt.Sched) { s.RandChoose = true },
+		Build: func(x *explore.Exec) func(vrt.EndReason) *explore.Violation {
+			fakes.Reset()
+			c := world.NewDatasetCluster(1, 1, pb.Space_Euclidean, [][]uint64{{1}}, 1, nil)
+			x.OnCleanup(c.Close)
+			for i := 0; i < 3; i++ {
+				if err := c.Nodes[0].DS.VerifPartition(0).Index().Insert(world.ID(uint64(i+1), 1), []float32{float32(i)}, nil, 0); err != nil {
+					panic(err)
+				}
+			}
+			srv := fakes.Registry[world.Addr(1)].Datasets
+			var size uint64
+			var err error
+			done := false
+			x.S.Spawn("caller", true, func() {
+				var resp *pb.Dataset
+				resp, err = srv.Get(context.Background(), &pb.GetDatasetRequest{DatasetId: c.Meta.Id, WithSize: true})
+				vrt.Yield() // the transport serialises the message after the handler returned
+				if err == nil {
+					size = resp.Size
+				}
+				done = true
+			})
+			x.S.Spawn("other", true, func() {
+				srv.Get(context.Background(), &pb.GetDatasetRequest{DatasetId: c.Meta.Id, WithSize: otherWithSize})
+			})
+			return func(end vrt.EndReason) *explore.Violation {
+				if !done {
+					return &explore.Violation{Key: "get-never-returns", Desc: strings.Join(x.S.Blocked(), "; ")}
+				}
+				x.Outcome = fmt.Sprintf("size=%d err=%v", size, err != nil)
+				if err != nil {
+					return &explore.Violation{Key: "get-error-on-healthy-node", Desc: fmt.Sprint(err)}
+				}
+				if size != 3 {
+					return &explore.Violation{Key: "get-reports-wrong-size", Desc: fmt.Sprintf("Get(with size) on a dataset of 3 items reports %d while another Get for the same dataset is served", size)}
+				}
+				return nil
+			}
+		},
+	}
+}
+
 // racePass: the same clusters, real goroutines, race detector on (un-instrumented twin built with -race). Sampling.
 func racePass() {
 	world.Quiet()
@@ -334,6 +383,7 @@ func main() {
 			scs = append(scs, buildList(fail, policy))
 		}
 	}
+	scs = append(scs, buildGet(false), buildGet(true))
 	explore.Main("C17", scs, explore.Plan{QuickBound: 3, ThoroughBound: 4, QuickBudget: 100 * time.Second, ThoroughBudget: 15 * time.Minute, Shards: 4,
 		Before: func(run *ev.Run) ev.Coverage { return racepass.Run(run, os.Getenv("VERIF_C17_RACE")) }},
 		"model_checking", []string{
